@@ -232,7 +232,7 @@ def common_cflags(gendir, hooks=True):
     return fl
 
 
-def build_lib(variant, hooks=True, jobs=16):
+def _build_lib_locked(variant, hooks=True, jobs=16):
     """Compile libyara + cli objects for a variant; returns dict with paths."""
     if variant not in VARIANTS:
         raise BuildError("unknown variant " + variant)
@@ -285,7 +285,7 @@ def build_lib(variant, hooks=True, jobs=16):
     return info
 
 
-def build_harness(variant, name, sources, extra_cflags=(), extra_ldflags=(), hooks=True):
+def _build_harness_locked(variant, name, sources, extra_cflags=(), extra_ldflags=(), hooks=True):
     """Compile a harness program from /verif/harness against the variant's libyara.a."""
     info = build_lib(variant, hooks=hooks)
     v = VARIANTS[variant]
@@ -326,3 +326,44 @@ def main(argv):
 
 if __name__ == "__main__":
     sys.exit(main(sys.argv[1:]))
+
+
+class _VariantLock:
+    """serialise builders of one variant across processes (two checks started together must not compile into the same
+    object files at once); re-entrant within a process"""
+    depth = {}
+
+    def __init__(self, variant):
+        self.variant = variant
+
+    def __enter__(self):
+        import fcntl
+        d = _VariantLock.depth
+        if d.get(self.variant, (0, None))[0] == 0:
+            os.makedirs(BUILD, exist_ok=True)
+            fh = open(os.path.join(BUILD, ".lock_" + self.variant), "w")
+            fcntl.flock(fh, fcntl.LOCK_EX)
+            d[self.variant] = (1, fh)
+        else:
+            n, fh = d[self.variant]
+            d[self.variant] = (n + 1, fh)
+
+    def __exit__(self, *a):
+        import fcntl
+        n, fh = _VariantLock.depth[self.variant]
+        if n == 1:
+            fcntl.flock(fh, fcntl.LOCK_UN)
+            fh.close()
+            _VariantLock.depth[self.variant] = (0, None)
+        else:
+            _VariantLock.depth[self.variant] = (n - 1, fh)
+
+
+def build_lib(variant, hooks=True, jobs=16):
+    with _VariantLock(variant):
+        return _build_lib_locked(variant, hooks, jobs)
+
+
+def build_harness(variant, name, sources, extra_cflags=(), extra_ldflags=(), hooks=True):
+    with _VariantLock(variant):
+        return _build_harness_locked(variant, name, sources, extra_cflags, extra_ldflags, hooks)
